@@ -1,8 +1,8 @@
 """C11 incremental session input equals running it as one program."""
-REG_DRAFT = dict(
+REG = dict(
     engine='E1-enum',
     technique='bounded-exhaustive enumeration of dependency-respecting input sequences, each executed twice on the real JSON-session handler (one request per input vs. one request for the whole program), differential oracle',
-    text="All dependency-respecting sequences of 1..4 (quick) / 1..6 (thorough) distinct inputs from a pool of 12 (two functions, the second calling the first; an enum; a struct; three lets, two of them using earlier names; one assignment to an earlier let; four expressions using earlier names), the last input always an expression. Oracle: the value displayed for the last expression in the incremental session equals the value displayed when the inputs are joined with newlines and sent as ONE request to a fresh session (the `Loaded N definitions ..., and the expression evaluated to V.` wrapper is stripped); additionally canon(Env) of both sessions restricted to user-visible state (user namespace entries, type names, test names, top-level bindings, namespace of the top frame) is equal.",
+    text="All dependency-respecting sequences of 1..5 (quick) / 1..8 (thorough) distinct inputs from a pool of 12 (two functions, the second calling the first; an enum; a struct; two lets, the second using the first; one assignment to an earlier let; five expressions using earlier names), the last input always an expression. Oracle: the value displayed for the last expression in the incremental session equals the value displayed when the inputs are joined with newlines and sent as ONE request to a fresh session (the `Loaded N definitions ..., and the expression evaluated to V.` wrapper is stripped); additionally canon(Env) of both sessions restricted to user-visible state (user namespace entries, type names, test names, top-level bindings, namespace of the top frame) is equal.",
     note='Every name is defined once and every input is error-free (checked: an error in the incremental session is a generator error). Function values are displayed with their definition line, which legitimately differs between the two layouts and is masked. Value stacks and pending expressions are not compared.',
     design_ref='DESIGN.md §6 C11',
 )
@@ -20,13 +20,13 @@ POOL = [  # (id, kind, source, direct dependencies)
     ("Shape", "enum", "enum Shape { Circle(Int), Dot }", []),
     ("Pt", "struct", "struct Pt { px: Int, py: Int }", []),
     ("a", "let", "let a = 2", []),
-    ("b", "let", "let b = f1(a)", ["f1", "a"]),
-    ("c", "let", "let c = [a, 3]", ["a"]),
+    ("b", "let", "let b = a * 3", ["a"]),
     ("asg", "assign", "a = a + 5", ["a"]),
-    ("e_call", "expr", "f2(a)", ["f2", "a"]),
-    ("e_enum", "expr", "Circle(a)", ["Shape", "a"]),
+    ("e_f1", "expr", "f1(4)", ["f1"]),
+    ("e_f2", "expr", "f2(a)", ["f2", "a"]),
+    ("e_enum", "expr", "Circle(7)", ["Shape"]),
     ("e_struct", "expr", "Pt{ px: a, py: b }", ["Pt", "a", "b"]),
-    ("e_sum", "expr", "a + c.len()", ["a", "c"]),
+    ("e_sum", "expr", "a + 1", ["a"]),
 ]
 BY_ID = {p[0]: p for p in POOL}
 WRAP = re.compile(r"^(?:Loaded .*?|Ran .*?), and the expression evaluated to (.*)\.$", re.S)
@@ -87,46 +87,34 @@ def visible(canon):
     return {"frames": len(frames), "pending": bool(frames[-1][1]), "bindings": FUN_LINE.sub(r"\1>", frames[0][3]), "ns": ns, "definitions": rest}
 
 
-def run(ctx):
-    max_len = 4 if ctx.quick else 6
-    seqs = sequences(max_len)
-    ctx.bound("pool", len(POOL))
-    ctx.bound("max_inputs", max_len)
-    ctx.bound("sequences", len(seqs))
-    jobs = []
-    for s in seqs:
-        srcs = [BY_ID[p][2] for p in s]
-        jobs.append({"op": "session", "requests": [run_req(x) for x in srcs], "canon": True, "tick_limit": 100000})
-        jobs.append({"op": "session", "requests": [run_req("\n".join(srcs))], "canon": True, "tick_limit": 100000})
-    res = ctx.pool.map(jobs, batch=32, timeout=30)
-    for i, r in enumerate(res):
-        if "timeout" in r:
-            res[i] = ctx.pool.one(jobs[i], timeout=300)
-    found = []          # (seq, what differs, detail)
-    values = set()
-    for k, s in enumerate(seqs):
+def check_chunk(ctx, part, res, found, values):
+    for k, s in enumerate(part):
         inc, bat = res[2 * k], res[2 * k + 1]
         srcs = [BY_ID[p][2] for p in s]
         for name, r in (("incremental", inc), ("batch", bat)):
             if "crash" in r or "timeout" in r:
                 raise Machinery(f"{name} session died on {srcs}: {r}")
-        if "panic" in inc:
-            raise Machinery(f"incremental session panicked on error-free inputs {srcs}: {inc['panic']}")
-        inc_vals = [value_of(x) for x in inc["responses"]]
-        for src, v in zip(srcs, inc_vals):
-            if v[0] != "Ok":
-                raise Machinery(f"pool input {src!r} is not error-free in the incremental session {srcs}: {v}")
-        v_inc = inc_vals[-1]
-        if "panic" in bat:
-            v_bat = ("PANIC", re.sub(r"\d+", "N", bat["panic"]["message"].split(" @ ")[0]))
-        else:
-            v_bat = value_of(bat["responses"][0])
-            if v_bat[0] == "Ok":
-                v_bat = ("Ok", strip_wrapper(v_bat[1]))
+        def last_value(r, n, unwrap):
+            if "panic" in r:
+                return ("PANIC", re.sub(r"\d+", "N", r["panic"]["message"].split(" @ ")[0]))
+            vals = [value_of(x) for x in r["responses"]]
+            bad = [(i, v) for i, v in enumerate(vals) if v[0] != "Ok"]
+            if bad:
+                return ("Err at input %d" % (bad[0][0] + 1 if n > 1 else len(srcs)), bad[0][1][1])
+            v = vals[-1]
+            return ("Ok", strip_wrapper(v[1]) if unwrap else v[1])
+
+        v_inc = last_value(inc, len(srcs), False)
+        v_bat = last_value(bat, 1, True)
+        if v_inc[0] != "Ok" and v_bat[0] != "Ok":
+            # the pool is error-free by construction: failing both ways means the generator (or its reading of Garden) is wrong
+            raise Machinery(f"pool inputs {srcs} fail in both layouts: incremental {v_inc}, one program {v_bat}")
         values.add(v_inc)
         ctx.outcome("value:" + (v_inc[1] if isinstance(v_inc[1], str) and len(v_inc[1]) < 30 else "long"))
         if v_inc != v_bat:
-            found.append((s, "value of the last expression" if v_bat[0] == "Ok" else f"one-program run ends in {v_bat[0]}",
+            what = "value of the last expression" if v_bat[0] == v_inc[0] == "Ok" else \
+                (f"one-program run ends in {v_bat[0].split(' ')[0]}" if v_inc[0] == "Ok" else f"incremental run ends in {v_inc[0].split(' ')[0]}")
+            found.append((s, what,
                           {"inputs": srcs, "incremental_value": v_inc, "one_program_value": v_bat}))
             continue
         vi, vb = visible(inc["canon"][-1]), visible(bat["canon"][-1])
@@ -134,7 +122,32 @@ def run(ctx):
             diff = sorted(key for key in vi if vi[key] != vb[key])
             found.append((s, "session state afterwards (" + ",".join(diff) + ")",
                           {"inputs": srcs, "incremental_state": {d: vi[d] for d in diff}, "one_program_state": {d: vb[d] for d in diff}}))
-    ctx.add(states=len(seqs), transitions=len(jobs), nontrivial=len(seqs))
+
+
+def run(ctx):
+    max_len = 5 if ctx.quick else 8
+    seqs = sequences(max_len)
+    ctx.bound("pool", len(POOL))
+    ctx.bound("max_inputs", max_len)
+    ctx.bound("sequences", len(seqs))
+    found = []          # (seq, what differs, detail)
+    values = set()
+    n_jobs = 0
+    CHUNK = 8000           # sequences per pool.map call (bounds memory: results carry canon strings)
+    for lo in range(0, len(seqs), CHUNK):
+        part = seqs[lo:lo + CHUNK]
+        jobs = []
+        for s in part:
+            srcs = [BY_ID[p][2] for p in s]
+            jobs.append({"op": "session", "requests": [run_req(x) for x in srcs], "canon": True, "tick_limit": 100000})
+            jobs.append({"op": "session", "requests": [run_req("\n".join(srcs))], "canon": True, "tick_limit": 100000})
+        res = ctx.pool.map(jobs, batch=32, timeout=30)
+        for i, r in enumerate(res):
+            if "timeout" in r:
+                res[i] = ctx.pool.one(jobs[i], timeout=300)
+        n_jobs += len(jobs)
+        check_chunk(ctx, part, res, found, values)
+    ctx.add(states=len(seqs), transitions=n_jobs, nontrivial=len(seqs))
     if len(values) < 6:
         raise Machinery(f"vacuous: only {len(values)} distinct last values over {len(seqs)} sequences")
     kinds_seen = {BY_ID[p][1] for s in seqs for p in s}
